@@ -143,7 +143,14 @@ func ParseSIPMsg(buf []byte, offs int, msg *PSIPMsg, flags uint8) (int, ErrorHdr
 		fallthrough
 	case SIPMsgHeaders:
 		if o, err = ParseHeaders(buf, o, &msg.HL, &msg.PV); err != 0 {
-			goto errHL
+			if !(err == ErrHdrMoreBytes && (flags&SIPMsgNoMoreDataF) != 0 &&
+				msg.HL.N > 0 && o == len(buf)-1 && buf[o] == '\r' &&
+				msg.HL.atLineStart()) {
+				goto errHL
+			}
+			// no more data will come: a CR that is the last byte of the
+			// input is a complete empty line (it cannot be half a CRLF)
+			o++
 		}
 		msg.state = SIPMsgBody
 		fallthrough
